@@ -9,7 +9,8 @@ THEOREMS = ['Bluebell.C13_unescape_escapeAll', 'Bluebell.C13_escape_tried_first'
             'Bluebell.C13_block_rules_choose_line', 'Bluebell.C13_block_level_reads_escaped_line']
 
 ALPH = (gen.ALL_KEYWORDS + gen.MARKERS + ['\\', '\\\\', '-', ' - ', ' ', 'a', 'Z', '1.', '(a)', 'é', 'א', '中', '\U0001F600', '{{', '}}', '**', '//', '__',
-                                          '{{*', '{{FOOTNOTE 1}}', '{{IMG x y}}', '|', '{a b}', '.x', '*', 'ITEM', 'FROM', 'TC', 'TR'])
+                                          '{{*', '{{FOOTNOTE 1}}', '{{IMG x y}}', '|', '{a b}', '.x', '*', 'ITEM', 'FROM', 'TC', 'TR',
+                                          'e\u0301', '\u212b', '\u2126', '\ufb01', 'a\u0307\u0323'])   # the last five: not in Unicode normal form
 
 
 def rand_w(rng):
